@@ -1,7 +1,7 @@
 #!/bin/bash
 # confirm_seeded.sh <PROP> <k> <test paths...> : verify a sub-agent change in its scratch worktree
-P=$1; K=$2; shift 2
-WT=/tmp/wt-$P; OUT=/tmp/out-$P/$K
+P=$1; K=$2; shift 2; OUTBASE=${OUTBASE:-/tmp/out}
+WT=/tmp/wt-$P; OUT=$OUTBASE-$P/$K
 cd $WT || exit 3
 git checkout -q -- . ; git clean -fdq -- moptipyapps examples tests >/dev/null 2>&1
 export NUMBA_CACHE_DIR=$WT/.numba_cache PYTHONPATH=$WT MPLBACKEND=Agg
